@@ -18,16 +18,17 @@ const modPath = "github.com/bradenaw/juniper"
 
 // Ctx is the loaded, type-checked and SSA-lowered repository.
 type Ctx struct {
-	RepoDir  string
-	Fset     *token.FileSet
-	Pkgs     map[string]*packages.Package // by path relative to the module ("stream", "container/tree")
-	SSA      map[string]*ssa.Package
-	Prog     *ssa.Program
-	PkgCount int
-	Funcs    []*ssa.Function          // every function body of the non-internal, non-test packages, incl. closures
-	byName   map[string]*ssa.Function // "stream.BatchFunc", "stream.batchStream.Next", "stream.BatchFunc$1"
-	decls    map[string]*ast.FuncDecl // same keys (no closures)
-	Errs     []string
+	RepoDir    string
+	Fset       *token.FileSet
+	Pkgs       map[string]*packages.Package // by path relative to the module ("stream", "container/tree")
+	SSA        map[string]*ssa.Package
+	Prog       *ssa.Program
+	PkgCount   int
+	Funcs      []*ssa.Function          // every function body of the non-internal, non-test packages, incl. closures
+	byName     map[string]*ssa.Function // "stream.BatchFunc", "stream.batchStream.Next", "stream.BatchFunc$1"
+	decls      map[string]*ast.FuncDecl // same keys (no closures)
+	movedFuncs []string                 // pinned key <- current key, for helpers that changed receiver
+	Errs       []string
 }
 
 func loadRepo(dir string, overlay map[string][]byte) (*Ctx, error) {
@@ -151,10 +152,54 @@ func loadRepo(dir string, overlay map[string][]byte) (*Ctx, error) {
 			}
 		}
 	}
+	c.aliasMovedFuncs()
 	curCtx = c
 	paramCellMemo = map[*ssa.Parameter]*ssa.Alloc{}
 	fnKeyMemo = map[*ssa.Function]string{}
 	return c, nil
+}
+
+// aliasMovedFuncs: an unexported helper the rules know as a method of one type (btree.rotateLeft) may be turned into a free
+// function or a method of another type of the package when it does not use its receiver (node.siblings): if the pinned key
+// is gone and exactly one function of that name exists in the package elsewhere, the pinned key names it (and its closures).
+func (c *Ctx) aliasMovedFuncs() {
+	for rel, fs := range pinnedFuncs {
+		for _, pf := range fs {
+			key := rel + "." + pf.Name
+			if pf.Recv != "" {
+				key = rel + "." + pf.Recv + "." + pf.Name
+			}
+			if _, ok := c.byName[key]; ok {
+				continue
+			}
+			var cands []string
+			for k := range c.byName {
+				if !strings.HasPrefix(k, rel+".") || strings.Contains(k, "$") {
+					continue
+				}
+				rest := k[len(rel)+1:]
+				if strings.Contains(rest, "/") {
+					continue
+				}
+				if rest == pf.Name || strings.HasSuffix(rest, "."+pf.Name) {
+					cands = append(cands, k)
+				}
+			}
+			if len(cands) != 1 {
+				continue
+			}
+			src := cands[0]
+			for k, f := range c.byName {
+				if k == src || strings.HasPrefix(k, src+"$") {
+					c.byName[key+k[len(src):]] = f
+				}
+			}
+			if d, ok := c.decls[src]; ok {
+				c.decls[key] = d
+			}
+			c.movedFuncs = append(c.movedFuncs, key+" <- "+src)
+		}
+	}
 }
 
 func recvTypeName(e ast.Expr) string {
